@@ -266,25 +266,29 @@ def rule_sgn0(fx, rep):
         rep.fail('WIRE', 'Fq::sgn0:anchor', 'Signum0 for Fq not found')
     else:
         rep.fn(p)
+        import limbpred
         for bit in (0, 1):
             def tr(I, fr, t, c, pth):
                 if c.get('name') == 'into_repr' and c.get('trait') == 'ff::PrimeField':
                     ref = fr.res.operand_referent(t['args'][0])
                     on_self = ref is not None and ref[0] == 'place' and ref[1]['l'] == 1
-                    limbs = [KBits64(1, bit)] + [KBits64(0, 0) for _ in range(5)]
-                    fr.storev(t['dest'], Agg([Agg(limbs)]) if on_self else TOP)
+                    # the canonical limbs as named values of which only the parity (limb 0, bit 0) is known
+                    fr.storev(t['dest'], Agg([Agg([limbpred.NLimb(0, [k_]) for k_ in range(6)])]) if on_self else TOP)
                     return True
                 if c.get('name') in ('is_odd', 'is_even') and c.get('trait') == 'ff::PrimeFieldRepr' and len(t['args']) == 1:
                     # generated by the derive: parity of limb 0
                     v = fr.deref_operand(t['args'][0])
                     l0 = v.items[0].items[0] if isinstance(v, Agg) and v.items and isinstance(v.items[0], Agg) and v.items[0].items else None
-                    if isinstance(l0, KBits) and (l0.mask & 1):
-                        odd = l0.val & 1
-                        fr.storev(t['dest'], Int(odd if c['name'] == 'is_odd' else 1 - odd, 1))
+                    if isinstance(l0, limbpred.NLimb) and l0.ks == frozenset([0]):
+                        fr.storev(t['dest'], Int(bit if c['name'] == 'is_odd' else 1 - bit, 1))
                         return True
-                return False
+                import stdmodel
+                return stdmodel.std_transfer(I, fr, t, c, pth)
             I = exp.Interp(fx, 'none', extra_transfer=tr)
+            I.binop_hook = limbpred.make_hook([bit])
+            I.propagate_hooks = True
             res = I.run(p, [('byref', TOP)])
+            res = [r for r in res if not (isinstance(r[1], tuple) and r[1] and r[1][0] == 'diverges')]
             ok = len(res) == 1 and isinstance(res[0][1], Agg) and res[0][1].kind and res[0][1].kind[1] == ('Negative' if bit else 'NonNegative')
             rep.check(ok, 'WIRE', 'Fq::sgn0:parity=%d' % bit, 'canonical integer with low bit %d -> %s' % (bit, 'Negative' if bit else 'NonNegative'),
                       'low bit %d gives %r (must read bit 0 of limb 0 of into_repr(), not the Montgomery limbs)' % (bit, [r[1] for r in res]), fx.fn(p)['span'], construct=p)
